@@ -207,6 +207,101 @@ func concOnce(iter, writers, per int, out *concOut) {
 	}
 }
 
+// confOnce: goroutines log while another one calls SetLevel / ApplyConfig (with the values already
+// in force, so that every line is still due).  Functionally every line must arrive whole, once,
+// in order; under -race the unsynchronised conf fields are what the detector reports.
+func confOnce(iter, writers, per int, out *concOut) {
+	clockInit()
+	home := newHome()
+	defer os.RemoveAll(home)
+	t0 := baseTime + int64(6000+iter%20000)*dayMs + 43200000
+	setClock(t0)
+	l := logfile.NewFileLogger(logfile.WithHomePath(home), logfile.WithOnameLogID("conf", "whatap"), logfile.WithLevel(0))
+	created++
+	waitParked()
+	l.ProcessOnceForVerif()
+	name := curName(l)
+	var wg sync.WaitGroup
+	var done int64
+	start := make(chan struct{})
+	total := int64(writers * per)
+	for g := 0; g < writers; g++ {
+		wg.Add(1)
+		go func(g int) {
+			defer wg.Done()
+			<-start
+			for k := 0; k < per; k++ {
+				tok, msg := concMsg(g, k)
+				switch concMeths[(g+k)%len(concMeths)] {
+				case "errorf":
+					l.Errorf("%s", msg)
+				case "warnf":
+					l.Warnf("%s", msg)
+				case "infof":
+					l.Infof("%s", msg)
+				case "debugf":
+					l.Debugf("%s", msg)
+				default:
+					l.Printf(tok, "%s", msg)
+				}
+				atomic.AddInt64(&done, 1)
+			}
+		}(g)
+	}
+	wg.Add(1)
+	go func() {
+		defer wg.Done()
+		<-start
+		for i := 0; atomic.LoadInt64(&done) < total; i++ {
+			if i%2 == 0 {
+				l.SetLevel(0)
+			} else {
+				l.ApplyConfig(&fakeConf{rot: true, keep: 7, interval: 10, level: "debug"})
+			}
+			time.Sleep(10 * time.Microsecond)
+		}
+	}()
+	close(start)
+	wg.Wait()
+	l.CloseForVerif()
+	out.Iters++
+	out.Lines += writers * per
+	fail := func(key, f string, a ...interface{}) {
+		if len(out.Findings) < 6 {
+			out.Findings = append(out.Findings, concFinding{key, fmt.Sprintf(f, a...), iter, writers, per})
+		}
+	}
+	content, _ := os.ReadFile(filepath.Join(home, "logs", name))
+	ls, err := concParse(content)
+	if err != nil {
+		fail("FileLogger.log:torn-line", "iteration %d (settings rewritten under load): %s: %v", iter, name, err)
+	}
+	out.InOld += len(ls)
+	count := map[[2]int]int{}
+	lastK := map[int]int{}
+	for g := 0; g < writers; g++ {
+		lastK[g] = -1
+	}
+	for _, x := range ls {
+		count[x]++
+		if x[1] <= lastK[x[0]] {
+			fail("FileLogger.log:order", "iteration %d (settings rewritten under load): goroutine %d: line %d follows line %d", iter, x[0], x[1], lastK[x[0]])
+		}
+		lastK[x[0]] = x[1]
+	}
+	missing := 0
+	for g := 0; g < writers; g++ {
+		for k := 0; k < per; k++ {
+			if count[[2]int{g, k}] != 1 {
+				missing++
+			}
+		}
+	}
+	if missing > 0 {
+		fail("FileLogger.log:line-missing", "iteration %d: %d of %d lines are not in the file exactly once while SetLevel/ApplyConfig rewrite the settings already in force", iter, missing, writers*per)
+	}
+}
+
 // concChild is the body of the child process.
 func concChild() {
 	writers, _ := strconv.Atoi(os.Getenv("C17_WRITERS"))
@@ -216,11 +311,44 @@ func concChild() {
 	deadline := time.Now().Add(time.Duration(budget) * time.Millisecond)
 	var out concOut
 	for it := first; time.Now().Before(deadline); it++ {
-		concOnce(it, writers, per, &out)
+		if os.Getenv("C17_SCENARIO") == "conf" {
+			confOnce(it, writers, per, &out)
+		} else {
+			concOnce(it, writers, per, &out)
+		}
 	}
 	out.Settle = settleTimeouts
 	b, _ := json.Marshal(out)
 	fmt.Println("C17CONC " + string(b))
+}
+
+const confRaceKey = "FileLogger.conf:data-race"
+const confRaceWhat = "SetLevel/ApplyConfig write this.conf.level, cacheInterval, rotationEnabled, keepDays, IsStdout without synchronisation while every log call reads conf.level and conf.cacheInterval (witness: 3-12 goroutines logging while one goroutine calls SetLevel(0) and ApplyConfig with the settings already in force)"
+
+// confRaceStatic: the unsynchronised write/read pair is present in the source (used where the
+// binary is not built with -race).
+func confRaceStatic(repo string) bool {
+	b, err := os.ReadFile(filepath.Join(repo, "logger/logfile/FileLogger.go"))
+	if err != nil {
+		return false
+	}
+	src := string(b)
+	body := func(sig string) string {
+		i := strings.Index(src, sig)
+		if i < 0 {
+			return ""
+		}
+		j := strings.Index(src[i:], "\n}\n")
+		if j < 0 {
+			return src[i:]
+		}
+		return src[i : i+j]
+	}
+	w := body("func (this *FileLogger) SetLevel(")
+	r := body("func (this *FileLogger) Warnf(")
+	unsyncW := strings.Contains(w, "this.conf.level =") && !strings.Contains(w, "Lock()") && !strings.Contains(w, "atomic.")
+	unsyncR := strings.Contains(r, "this.conf.level") && !strings.Contains(r, "Lock()") && !strings.Contains(r, "atomic.")
+	return unsyncW && unsyncR
 }
 
 func concStage(env *vh.Env, rep *vh.Report, rng *vh.Rng) {
@@ -232,11 +360,19 @@ func concStage(env *vh.Env, rep *vh.Report, rng *vh.Rng) {
 	if err != nil {
 		vh.Die("executable: %v", err)
 	}
-	for ch := 0; ch < children; ch++ {
+	confRace := false
+	for ch := 0; ch <= children; ch++ {
 		writers := 3 + rng.Intn(10)
 		per := 30 + rng.Intn(120)
+		scenario := "rotate"
+		if ch == children { // last child: settings rewritten under load
+			scenario = "conf"
+			if !env.Thorough {
+				budget = 1200
+			}
+		}
 		cmd := exec.Command(self, "-driver", env.Driver, "-tier", env.Tier)
-		cmd.Env = append(os.Environ(), "C17_CHILD=conc", fmt.Sprintf("C17_WRITERS=%d", writers), fmt.Sprintf("C17_PER=%d", per),
+		cmd.Env = append(os.Environ(), "C17_CHILD=conc", "C17_SCENARIO="+scenario, fmt.Sprintf("C17_WRITERS=%d", writers), fmt.Sprintf("C17_PER=%d", per),
 			fmt.Sprintf("C17_FIRST=%d", ch*1000+int(env.Seed)*17), fmt.Sprintf("C17_BUDGET_MS=%d", budget), "GORACE=halt_on_error=0 exitcode=0")
 		var so, se bytes.Buffer
 		cmd.Stdout, cmd.Stderr = &so, &se
@@ -255,12 +391,16 @@ func concStage(env *vh.Env, rep *vh.Report, rng *vh.Rng) {
 				map[string]interface{}{"stage": "conc", "writers": writers, "per": per})
 			continue
 		}
-		rep.CountN("conc:rotations-under-load", out.Iters)
+		if scenario == "conf" {
+			rep.CountN("conc:conf-rewrites-under-load", out.Iters)
+		} else {
+			rep.CountN("conc:rotations-under-load", out.Iters)
+		}
 		rep.CountN("conc:lines", out.Lines)
 		rep.CountN("conc:lines-in-old-file", out.InOld)
 		rep.CountN("conc:lines-in-new-file", out.InNew)
 		for i := 0; i < out.Iters; i++ {
-			rep.Case(fmt.Sprintf("conc/%d/%d/%d/%d", ch, writers, per, i), true)
+			rep.Case(fmt.Sprintf("conc/%s/%d/%d/%d/%d", scenario, ch, writers, per, i), true)
 		}
 		if out.Settle > 0 {
 			rep.Note("concurrent stage: %d settle time-outs", out.Settle)
@@ -270,11 +410,26 @@ func concStage(env *vh.Env, rep *vh.Report, rng *vh.Rng) {
 		}
 		if raceEnabled {
 			rep.Count("conc:race-detector-children")
-			if i := strings.Index(se.String(), "WARNING: DATA RACE"); i >= 0 {
-				txt := se.String()[i:]
-				rep.Fail("property", "FileLogger.concurrent:data-race", "the race detector reports: "+vh.Clip(txt, 1800),
-					map[string]interface{}{"stage": "conc", "writers": writers, "per": per})
+			for _, r := range strings.Split(se.String(), "WARNING: DATA RACE")[1:] {
+				if j := strings.Index(r, "=================="); j >= 0 {
+					r = r[:j]
+				}
+				if strings.Contains(r, ").SetLevel") || strings.Contains(r, ").ApplyConfig") {
+					if !confRace {
+						confRace = true
+						rep.Fail("property", confRaceKey, confRaceWhat+" — the race detector reports: "+vh.Clip(r, 1500),
+							map[string]interface{}{"stage": "conc", "scenario": "conf", "writers": writers, "per": per})
+					}
+					continue
+				}
+				rep.Fail("property", "FileLogger.concurrent:data-race", "the race detector reports: "+vh.Clip(r, 1800),
+					map[string]interface{}{"stage": "conc", "scenario": scenario, "writers": writers, "per": per})
 			}
 		}
+	}
+	if raceEnabled {
+		rep.KnownReplay(confRaceKey, confRace, confRaceWhat+" (race detector, this run)")
+	} else {
+		rep.KnownReplay(confRaceKey, confRaceStatic(env.Repo), confRaceWhat+" (this build has no race detector: established from the source — the write in SetLevel and the read in Warnf take no lock; the detector runs in the thorough tier)")
 	}
 }
